@@ -82,6 +82,8 @@ func workerMain(dirs []string) {
 				interp.Params = map[string]int{}
 			}
 			interp.X.NoFork = req.NoFork
+			interp.X.FastOn = req.Params["nofast"] == 0
+			interp.X.FastAudit = req.Params["audit"] != 0
 			interp.X.Known = req.Known
 			if req.MaxSteps > 0 {
 				interp.X.MaxSteps = req.MaxSteps
